@@ -272,8 +272,10 @@ Proof. reflexivity. Qed.
    store contract of FindUsers / FindTopics).  Every unicode table, every list of validators'
    PreCheck functions [vals] and authenticators' AsTag functions [auths] (in the order in which
    rewriteTag visits them), every configuration c = (masked namespaces, the user's own tags, the
-   candidate rows), every topic state t, every session s (root or not, any country code), every
-   query, every request sequence. ---- *)
+   candidate rows), every topic state t, every session s (ANY auth level - sess.authLvl is an int:
+   LevelNone 0, LevelAnon 10, LevelAuth 20, LevelRoot 30 or any other number -, any country code),
+   every query, every request sequence.  [s_root s] abbreviates [s_lvl s =? level_root_c19], so
+   [s_root s = false] covers every level other than root. ---- *)
 Section C19Search.
   Variable lower : N -> N.
   Variables is_letter is_number : N -> bool.
@@ -377,6 +379,79 @@ Section C19Search.
     forall i, In i ids -> exists x, In x (fc_world c) /\ cd_id x = i /\
       cand_matches_c19 (k_req k) (k_opt k) x = true /\ (s_root s = false -> cd_ok x = true).
   Proof. exact (get_sub_results_allowed_c19 lower is_letter is_number vals auths). Qed.
+  (* (c) restated over the LEVEL itself.  'Ordinary users' are the sessions whose sess.authLvl is
+     not LevelRoot - anonymous-scheme logins (LevelAnon), session objects that were never given a
+     level (LevelNone: the proxied session on a cluster master), fully authenticated users and any
+     other value of the int: activeOnly = true is handed to the store EXACTLY for them ... *)
+  Theorem c19_search_active_only_iff_level_not_root : forall c t s r k,
+    get_sub c t s = (r, Some k) -> (k_active k = true <-> s_lvl s <> level_root_c19).
+  Proof. exact (get_sub_active_flag_c19 lower is_letter is_number vals auths). Qed.
+
+  Theorem c19_search_every_nonroot_level_passes_active_only : forall c t s r k,
+    get_sub c t s = (r, Some k) -> s_lvl s <> level_root_c19 -> k_active k = true.
+  Proof. exact (get_sub_level_active_only_c19 lower is_letter is_number vals auths). Qed.
+
+  (* the named levels, spelled out *)
+  Theorem c19_search_none_anon_auth_pass_active_only : forall c t s r k,
+    get_sub c t s = (r, Some k) ->
+    s_lvl s = level_none_c19 \/ s_lvl s = level_anon_c19 \/ s_lvl s = level_auth_c19 -> k_active k = true.
+  Proof.
+    intros c t s r k H L. apply (get_sub_level_active_only_c19 lower is_letter is_number vals auths c t s r k H).
+    destruct L as [-> | [-> | ->]]; discriminate.
+  Qed.
+
+  (* ... every row they are shown is an existing, matching, active row ... *)
+  Theorem c19_search_every_nonroot_level_shown_active_rows_only : forall c t s ids k,
+    get_sub c t s = (FMeta ids, Some k) -> s_lvl s <> level_root_c19 ->
+    forall i, In i ids -> exists x, In x (fc_world c) /\ cd_id x = i /\
+      cand_matches_c19 (k_req k) (k_opt k) x = true /\ cd_ok x = true.
+  Proof. exact (get_sub_level_results_active_c19 lower is_letter is_number vals auths). Qed.
+
+  (* ... and, rows having distinct ids, NO suspended or deleted account / topic is among them *)
+  Theorem c19_search_nonroot_level_never_shown_inactive : forall c t s ids k,
+    NoDup (map cd_id (fc_world c)) ->
+    get_sub c t s = (FMeta ids, Some k) -> s_lvl s <> level_root_c19 ->
+    forall x, In x (fc_world c) -> cd_ok x = false -> ~ In (cd_id x) ids.
+  Proof. exact (get_sub_level_never_inactive_c19 lower is_letter is_number vals auths). Qed.
+
+  (* over histories: both facts after every request sequence *)
+  Theorem c19_search_history_every_nonroot_level_active_only : forall c rs t,
+    Forall2 (fun r a => match r, a with
+                        | FGetSub s, (resp, Some k) =>
+                          s_lvl s <> level_root_c19 ->
+                          k_active k = true /\
+                          match resp with
+                          | FMeta ids => forall i, In i ids ->
+                                           exists x, In x (fc_world c) /\ cd_id x = i /\ cd_ok x = true
+                          | _ => True
+                          end
+                        | _, _ => True
+                        end) rs (snd (run c t rs)).
+  Proof. exact (run_level_active_only_c19 lower is_letter is_number vals auths). Qed.
+
+  (* the level matters in NO other way: sessions that differ only in their levels, none of them
+     root, get the same replies and make the same store calls through every history (what an
+     anonymous or level-less session is shown is what a fully authenticated one is shown) *)
+  Theorem c19_search_nonroot_levels_indistinguishable : forall c t s1 s2,
+    s_id s1 = s_id s2 -> s_cc s1 = s_cc s2 -> s_lvl s1 <> level_root_c19 -> s_lvl s2 <> level_root_c19 ->
+    get_sub c t s1 = get_sub c t s2.
+  Proof.
+    intros c t s1 s2 Hi Hc L1 L2.
+    apply (get_sub_level_irrelevant_c19 lower is_letter is_number vals auths c t s1 s2). repeat split; assumption.
+  Qed.
+
+  Theorem c19_search_history_nonroot_levels_indistinguishable : forall c rs1 rs2 t,
+    Forall2 (fun r1 r2 => match r1, r2 with
+                          | FSetDesc s1 p1 v1, FSetDesc s2 p2 v2 => s_id s1 = s_id s2 /\ p1 = p2 /\ v1 = v2
+                          | FGetSub s1, FGetSub s2 =>
+                            s_id s1 = s_id s2 /\ s_cc s1 = s_cc s2 /\
+                            s_lvl s1 <> level_root_c19 /\ s_lvl s2 <> level_root_c19
+                          | FUnload, FUnload => True
+                          | FUserTags, FUserTags => True
+                          | _, _ => False
+                          end) rs1 rs2 ->
+    run c t rs1 = run c t rs2.
+  Proof. exact (fun c rs1 rs2 t => run_level_irrelevant_c19 lower is_letter is_number vals auths c rs1 rs2 t). Qed.
 End C19Search.
 Print Assumptions c19_search_masked_terms_are_own.
 Print Assumptions c19_search_foreign_masked_term_refused.
@@ -390,6 +465,14 @@ Print Assumptions c19_search_malformed_query_rejected.
 Print Assumptions c19_search_nonroot_passes_active_only.
 Print Assumptions c19_search_history_nonroot_active_only.
 Print Assumptions c19_search_results_allowed.
+Print Assumptions c19_search_active_only_iff_level_not_root.
+Print Assumptions c19_search_every_nonroot_level_passes_active_only.
+Print Assumptions c19_search_none_anon_auth_pass_active_only.
+Print Assumptions c19_search_every_nonroot_level_shown_active_rows_only.
+Print Assumptions c19_search_nonroot_level_never_shown_inactive.
+Print Assumptions c19_search_history_every_nonroot_level_active_only.
+Print Assumptions c19_search_nonroot_levels_indistinguishable.
+Print Assumptions c19_search_history_nonroot_levels_indistinguishable.
 
 (* non-vacuity of the search layer: toy rewriters that OVERLAP on digit strings, as the phone
    validator and the login authenticator do *)
@@ -410,8 +493,11 @@ Definition s_org : tag := [111; 114; 103]%N.
 Definition s_org_acme : tag := (s_org ++ [58; 97; 99; 109; 101])%N.          (* org:acme *)
 Definition s_org_rival : tag := (s_org ++ [58; 114; 105; 118; 97; 108])%N.   (* org:rival *)
 Definition s_travel : tag := [116; 114; 97; 118; 101; 108]%N.
-Definition x_sess : sess_c19 := mkSessC19 1 false [49]%N.
-Definition x_root : sess_c19 := mkSessC19 2 true [49]%N.
+Definition x_sess : sess_c19 := mkSessC19 1 level_auth_c19 [49]%N.
+Definition x_root : sess_c19 := mkSessC19 2 level_root_c19 [49]%N.
+Definition x_anon : sess_c19 := mkSessC19 1 level_anon_c19 [49]%N.      (* anonymous-scheme login *)
+Definition x_none : sess_c19 := mkSessC19 1 level_none_c19 [49]%N.      (* a session without a level *)
+Definition x_junk : sess_c19 := mkSessC19 1 31 [49]%N.                  (* not a level at all *)
 Definition x_cfg : fcfg_c19 :=
   mkFcfgC19 [s_org] [s_org_acme; s_travel] 0
     [mkCandC19 0 true true [s_org_acme; s_travel];          (* the searcher *)
@@ -435,3 +521,16 @@ Example c19_ex_search_history :
      (FCtrl 200, None); (FCtrl 403, None);
      (FNone, None); (FMeta [1], Some (mkCallC19 [] [s_travel; s_org_acme] true))]%N.
 Proof. reflexivity. Qed.
+
+(* every level other than root: the anonymous, the level-less and the junk-level session find
+   account 1 only, with activeOnly; the root session also the suspended account 2 and the deleted
+   topic 4 *)
+Example c19_ex_search_levels :
+  snd (x_run (load_c19 None)
+         [FSetDesc x_sess None (Some s_travel); FGetSub x_anon; FGetSub x_none; FGetSub x_junk; FGetSub x_root]%N)
+  = [(FCtrl 200, None); (FMeta [1], Some (mkCallC19 [[s_travel]] [] true));
+     (FMeta [1], Some (mkCallC19 [[s_travel]] [] true)); (FMeta [1], Some (mkCallC19 [[s_travel]] [] true));
+     (FMeta [1; 2; 4], Some (mkCallC19 [[s_travel]] [] false))]%N.
+Proof. reflexivity. Qed.
+Example c19_ex_world_ids_distinct : NoDup (map cd_id (fc_world x_cfg)).
+Proof. repeat constructor; cbn; intuition discriminate. Qed.
